@@ -316,6 +316,37 @@ func init() {
 				}
 			}
 		}
+		// (a3) values of several chunks set on a binary and read on a TEXT connection (whose parser
+		// hands the handler keys with spare capacity behind them): what comes back is the value
+		for n := 1; n <= maxN; n++ {
+			val := mkval(n, byte('a'+n))
+			sc := Scenario{ID: fmt.Sprintf("C05-textread-%d", n), Stack: cfg, Conns: []ConnCfg{{ID: "b", Port: "main", Proto: "bin"}, {ID: "t", Port: "main", Proto: "text"}}}
+			for ki, k := range [][]byte{key, []byte("user:1234"), []byte("k")} {
+				sc.Steps = append(sc.Steps,
+					Step{Kind: "feed", Conn: "b", Cmd: Command{Kind: "set", Key: k, Flags: uint32(7 + ki), Data: val, Opaque: 1}},
+					Step{Kind: "feed", Conn: "t", Cmd: Command{Kind: "get", Keys: []GetKey{{Key: k}}}},
+					Step{Kind: "feed", Conn: "t", Cmd: Command{Kind: "get", Keys: []GetKey{{Key: []byte("nokey")}, {Key: k}}}})
+			}
+			out := RunScenarioO(d, sc, 3*time.Second, true)
+			if out.Tainted {
+				out = RunScenarioO(d, sc, 3*time.Second, true)
+			}
+			if out.Tainted {
+				rep.Tainted++
+				continue
+			}
+			rep.Evaluations++
+			distinct[fmt.Sprintf("textread/%d", n)] = true
+			for _, m := range out.Misses {
+				rep.Violations = append(rep.Violations, Violation{What: fmt.Sprintf("a value of %d chunks read over the text protocol, step %d (%s): %s", n, m.Step, out.Descs[m.Step], m.Verdict),
+					Signature: "torn-read:text", Replay: map[string]interface{}{"scenario": describeScenario(sc), "step": m.Step, "driver_script": out.Script}})
+			}
+			if out.Div != nil {
+				rep.Divergences = append(rep.Divergences, out.Div)
+				continue
+			}
+			rep.Validated++
+		}
 		// (a') an older value under the same key, losses among the new entries
 		rounds := 60
 		if tier == "thorough" {
